@@ -20,6 +20,7 @@ import (
 	"sync/atomic"
 
 	"github.com/conduitio/conduit/pkg/foundation/cerrors"
+	"github.com/conduitio/conduit/pkg/foundation/verifhook"
 )
 
 type FanoutNode struct {
@@ -84,6 +85,7 @@ func (n *FanoutNode) Run(ctx context.Context) error {
 						// wrap ack handler to make sure msg is not overwritten
 						// by the time ack handler is called
 						n.wrapAckHandler(msg, func(msg *Message) (err error) {
+							verifhook.Point("stream.fanout.ack")
 							remaining := atomic.AddInt32(&remainingAcks, -1)
 							if remaining == 0 {
 								// this was the last ack, let's propagate it
